@@ -50,6 +50,11 @@ def run(ctx):
     r7_document_dispatch(ctx)
     r8_input_validation(ctx)
     shared.whole_cell_consumption(ctx, 'R5')
+    # "carries the verbatim text": the cell handed to import_token by kernpy.loads / load is the text between the tabs as written
+    from . import c02
+    ctx.alias = {'R1': 'R10'}
+    c02.r1_reader(ctx)
+    ctx.alias = {}
     from .. import regen
     regen.check(ctx, 'R6')
     # the accepted-category tests rest on is_child / valid / nodes: nodes(c) is computed afresh from the hierarchy (a set that is
